@@ -7,6 +7,59 @@ use crate::{
 };
 
 pub struct DeadValueCheck;
+impl DeadValueCheck {
+    /// Does every way from the entry of the function (or of the program) to
+    /// `node` give the caller-saved register `item` a value?
+    fn assigned_on_every_way_to(
+        cfg: &Cfg,
+        node: &Rc<crate::cfg::CfgNode>,
+        item: Register,
+    ) -> bool {
+        let mut queue: Vec<Rc<crate::cfg::CfgNode>> = node.prevs().iter().cloned().collect();
+        let mut visited: Vec<Rc<crate::cfg::CfgNode>> = vec![Rc::clone(node)];
+        while let Some(prev) = queue.pop() {
+            if visited.iter().any(|seen| Rc::ptr_eq(seen, &prev)) {
+                continue;
+            }
+            visited.push(Rc::clone(&prev));
+            if prev.is_program_entry() {
+                // The program starts with its arguments
+                if Register::program_args_set().contains(&item) {
+                    continue;
+                }
+                return false;
+            }
+            if let Some(function) = prev.is_function_entry_with_func() {
+                // A function starts with its arguments, a handler with
+                // everything the interrupted code had
+                if prev.is_handler_function_entry() || function.arguments().contains(&item) {
+                    continue;
+                }
+                return false;
+            }
+            if let Some((function, _)) = prev.calls_to_from_cfg(cfg) {
+                // A call returns its results and garbage otherwise
+                if function.returns().contains(&item) {
+                    continue;
+                }
+                return false;
+            }
+            if prev.is_ecall() {
+                let results = match prev.known_ecall_signature() {
+                    Some((_, results)) => results,
+                    None => Register::program_args_set(),
+                };
+                if results.contains(&item) {
+                    continue;
+                }
+            } else if prev.writes_to().is_some_and(|reg| *reg.get() == item) {
+                continue;
+            }
+            queue.extend(prev.prevs().iter().cloned());
+        }
+        true
+    }
+}
 impl LintPass for DeadValueCheck {
     fn run(cfg: &Cfg, errors: &mut DiagnosticManager) {
         // Reads of garbage left behind by an ecall that were reported already
@@ -50,13 +103,20 @@ impl LintPass for DeadValueCheck {
                 }
             }
 
-            // An environment call leaves garbage in every caller-saved
-            // register that is not one of its results, just like a function
-            // call does: a read of such a register that is reached from the
-            // ecall without an assignment in between reads that garbage.
+            // The analyses treat an environment call like a function call:
+            // what a caller-saved register that is not one of its results held
+            // before is not followed across it. The environment itself keeps
+            // such a register, so a value assigned in front of the ecall is
+            // still there behind it. A register that some way to the ecall
+            // never assigns holds garbage behind it as it did in front of it:
+            // a read that is reached from the ecall without an assignment in
+            // between reads that garbage, and nothing else sees it.
             if let Some((_, results)) = node.known_ecall_signature() {
                 let out = (Register::caller_saved_set() - results) & node.live_out();
                 for item in &out {
+                    if Self::assigned_on_every_way_to(cfg, &node, item) {
+                        continue;
+                    }
                     for range in cfg.error_ranges_for_first_usage(&node, item) {
                         let place = (range.file(), range.range());
                         if !reported.contains(&place) {
